@@ -37,20 +37,43 @@ pub fn find(id: &str) -> Option<&'static PropInfo> {
 /// honours `--replay` (single run seed) and the soft wall-clock budget.
 pub fn run_loop(ctx: &Ctx, out: &mut Outcome, quick: u64, thorough: u64, salt: u64, mut one: impl FnMut(&Ctx, &mut Outcome, u64)) {
     if let Some(s) = ctx.replay_seed {
-        one(ctx, out, s);
+        guarded_run(ctx, out, s, &mut one);
         return;
     }
     let n = ctx.runs(quick, thorough);
     let base = ctx.shard_seed(salt);
     for i in 0..n {
         let run_seed = crate::rng::mix(&[base, i]);
-        one(ctx, out, run_seed);
+        guarded_run(ctx, out, run_seed, &mut one);
         if out.should_stop() {
             break;
         }
         if ctx.over_budget() {
             out.note(&format!("soft wall-clock budget reached after {} of {} runs in shard {}", i + 1, n, ctx.shard));
             break;
+        }
+    }
+}
+
+/// Runs one execution. A panic that unwinds out of it is attributed: if it was raised inside the library
+/// under test or one of its dependencies (source path outside the harness) while the harness was only
+/// making API calls of an honest workload, no property can hold on that execution - it is reported as a
+/// violation of the property being checked (`<id>/library-panic/<class>`); a panic raised in harness code
+/// is a harness bug and makes the run inconclusive.
+fn guarded_run(ctx: &Ctx, out: &mut Outcome, run_seed: u64, one: &mut impl FnMut(&Ctx, &mut Outcome, u64)) {
+    let res = crate::watchdog::catch(|| one(ctx, out, run_seed));
+    if let Err(c) = res {
+        let in_harness = c.loc.is_empty() || c.loc.starts_with("src/") || c.loc.contains("/verif/harness/");
+        if in_harness {
+            out.inconclusive(&format!("harness panic in run {:#x}: {} at {}", run_seed, c.msg, c.loc));
+        } else {
+            out.violation(
+                ctx,
+                &format!("{}/library-panic/{}", ctx.prop, c.class),
+                "the library does not panic on the calls of an honest application",
+                format!("panic inside the library during run {:#x}: {} at {}", run_seed, c.msg, c.loc),
+                serde_json::json!({"property": ctx.prop, "engine": ctx.engine, "run_seed": format!("{:#x}", run_seed), "panic": c.msg, "location": c.loc}),
+            );
         }
     }
 }
